@@ -8,8 +8,8 @@ from vf import build, recs, graph
 EVENTS = {
     "r": "rx,tx,to,err,close,msg",
     "s": "rx,tx,to,err,close,msg,sub,subcb,ntf,del,fin,bad",
-    "t": "rx,tx,to,err,close,sub,subcb,ntf,del,fin,bad",
-    "q": "to,sub,subcb,ntf,del,fin,bad,nofin",
+    "t": "rx,tx,to,err,close,msg,sub,subcb,ntf,del,fin,bad",
+    "q": "rx,tx,enhreq,err,close,to,sub,subcb,ntf,del,fin,bad,nofin",
     "a": "rx,tx,to,err,close,msg",
 }
 
